@@ -1,5 +1,6 @@
 import Uflow.Driver.CodecMode
 import Uflow.Driver.HcMode
+import Uflow.Driver.EpMode
 
 /-! `uflow_driver <mode>`: runs a line-protocol script (stdin) against the Lean model and prints
 one output line per operation. A line starting with `===` separates cases: it is echoed and the
@@ -35,4 +36,5 @@ def main (args : List String) : IO UInt32 := do
   match args with
   | "codec" :: _ => loop stdin stdout () (fun _ t => ((), codecOp t)) (); return 0
   | "hc" :: _ => loop stdin stdout HcMachine.init hcOp HcMachine.init; return 0
+  | "ep" :: _ => loop stdin stdout EpMachine.init epOp EpMachine.init; return 0
   | _ => IO.eprintln "usage: uflow_driver <mode>"; return 2
